@@ -167,6 +167,14 @@ func checkC01(c *Ctx) {
 			add("G7-shift", []byte(strings.Repeat(" ", sh)+"["+strings.Repeat(" ", r.Intn(70))+seed+"]"))
 		}
 	}
+	// G11 a long string arriving after other strings (string-buffer growth beyond doubling)
+	for _, d := range longStringDocs(r) {
+		add("G11-long-string-after-others", d)
+	}
+	// G12 big objects truncated inside a member
+	for _, d := range truncatedObjects(r, c.N(40, 400)) {
+		add("G12-truncated-big-object", d)
+	}
 	// G8 big documents (above the 8 KiB threshold: concurrent path) with unbalanced brackets
 	for _, d := range bigUnbalanced(r, c.N(60, 600)) {
 		add("G8-big-unbalanced", d)
